@@ -21,7 +21,8 @@ from .common import close
 PROP = "C07"
 META = {
     "bounds": {"quick": "pairs of non-empty Boolean masks 1-D 5, 2-D 2x3 and 1x4 (singleton axis); embedding of a 1-D 3 mask into length 5 at every offset; "
-                        "distance-transform glue with arbitrary feature-transform coordinates up to 2^17",
+                        "distance-transform glue with arbitrary feature-transform coordinates up to 2^17; two-call histories: same content in another shape (4 / 2x2), "
+                        "and a connectivity=2 call followed by the default call on 3x3 masks (plus-shaped centre fixed to foreground, corners free)",
                "thorough": "1-D 7, 2-D 2x4, 3-D 2x2x2 and 1x2x3"},
     "stubs": ["scipy.ndimage.binary_erosion := pointwise definition with the structure actually passed, outside = background",
               "scipy euclidean_feature_transform := index of a nearest background element (ties: first in scan order; only the tie-invariant distance is consumed)",
@@ -48,6 +49,10 @@ def cases(tier):
     out.append({"name": "embed_1d", "what": "embed", "n": 3, "N": 5 if tier == "quick" else 6})
     # history: the value for a pair of masks does not depend on ASSD calls made before in the same process (same content, other shape)
     out.append({"name": "sequence_same_content_other_shape", "what": "sequence", "shapes": [(4,), (2, 2)]})
+    # history with an option: a call with the non-default connectivity=2 (full neighbourhood border) first, then the default call on masks of
+    # the same dimensionality - 3x3 masks whose plus-shaped centre is foreground, corners free: the centre voxel is interior under the
+    # documented face connectivity whatever the corners are
+    out.append({"name": "sequence_connectivity2_then_default", "what": "sequence", "shapes": [(3, 3), (3, 3)], "first_kwargs": {"connectivity": 2}, "fixed_true": [1, 3, 4, 5, 7]})
     out.append({"name": "edt_large_offsets", "what": "edt"})
     return out
 
@@ -193,15 +198,16 @@ def run_case(case):
         n = len(coords(shp1))
         X = [z3.Bool("r%d" % i) for i in range(n)]
         Y = [z3.Bool("p%d" % i) for i in range(n)]
-        base = base + [z3.Or(X), z3.Or(Y)]
+        base = base + [z3.Or(X), z3.Or(Y)] + [v for i in case.get("fixed_true", []) for v in (X[i], Y[i])]
+        kw1 = dict(case.get("first_kwargs") or {})
 
         def decode(m):
-            return {"what": "sequence", "shapes": [list(shp1), list(shp2)], "ref": [bool(jsonable(v, m)) for v in X], "pred": [bool(jsonable(v, m)) for v in Y]}
+            return {"what": "sequence", "shapes": [list(shp1), list(shp2)], "first_kwargs": kw1, "ref": [bool(jsonable(v, m)) for v in X], "pred": [bool(jsonable(v, m)) for v in Y]}
         h = H(PROP, case["name"], decode, replay_kind="sequence", max_witnesses=30)
 
         def body():
             try:
-                val(Metric.ASSD(SArr(list(X), "bool", shp1), SArr(list(Y), "bool", shp1)))
+                val(Metric.ASSD(SArr(list(X), "bool", shp1), SArr(list(Y), "bool", shp1), **kw1))
                 v2 = val(Metric.ASSD(SArr(list(X), "bool", shp2), SArr(list(Y), "bool", shp2)))
             except EngineSignal:
                 raise
@@ -329,10 +335,10 @@ def real_sequence(case, mode, expect):
     from panoptica import Metric
     shp1, shp2 = [tuple(x) for x in case["shapes"]]
     ref, pred = np.array(case["ref"], dtype=bool), np.array(case["pred"], dtype=bool)
-    Metric.ASSD(ref.reshape(shp1), pred.reshape(shp1))
+    Metric.ASSD(ref.reshape(shp1), pred.reshape(shp1), **(case.get("first_kwargs") or {}))
     v2 = float(Metric.ASSD(ref.reshape(shp2), pred.reshape(shp2)))
     want, _, _ = _assd_oracle(ref.reshape(shp2), pred.reshape(shp2))
-    bad = None if close(v2, want, 1e-9) else "value_independent_of_earlier_calls: after the same content was evaluated with shape %s, shape %s gives %r, definition %r" % (shp1, shp2, v2, want)
+    bad = None if close(v2, want, 1e-9) else "value_independent_of_earlier_calls: after the same content was evaluated with shape %s%s, shape %s gives %r, definition %r" % (shp1, " and %s" % case["first_kwargs"] if case.get("first_kwargs") else "", shp2, v2, want)
     ok = mode != "witness" or expect is None or close(expect["assd"], v2, 1e-6)
     return {"match": ok, "violates": bad is not None, "reason": bad, "observed": {"assd": v2}}
 
